@@ -126,7 +126,7 @@ mod imp {
                     intervals.lock().unwrap().extend(local);
                 }));
             }
-            hs.into_iter().map(|h| h.join().is_err()).any(|x| x)
+            hs.into_iter().map(|h| h.join().is_err()).collect::<Vec<bool>>().into_iter().any(|x| x)
         });
         let case = json!({"expressions": exprs, "documents": doc_texts, "threads": n_threads, "jobs": jobs.iter().map(|l| l.iter().map(|j| json!([j.0, j.1, j.2, j.3])).collect::<Vec<_>>()).collect::<Vec<_>>()});
         if panicked {
@@ -247,7 +247,7 @@ mod imp {
                     })
                 })
                 .collect();
-            hs.into_iter().map(|h| h.join().is_err()).any(|x| x)
+            hs.into_iter().map(|h| h.join().is_err()).collect::<Vec<bool>>().into_iter().any(|x| x)
         });
         let hist: Vec<String> = script.iter().map(|(op, n)| match op { 0 => format!("register {}", names[*n]), 1 => format!("deregister {}", names[*n]), _ => "register_builtin_functions".to_string() }).collect();
         let case = json!({"registrations": hist, "expressions": exprs, "document": doc_text, "threads": n_threads});
@@ -316,7 +316,7 @@ mod imp {
                     })
                 })
                 .collect();
-            hs.into_iter().map(|h| h.join().is_err()).any(|x| x)
+            hs.into_iter().map(|h| h.join().is_err()).collect::<Vec<bool>>().into_iter().any(|x| x)
         });
         let case = json!({"expressions": n_expr, "first_expressions": exprs.iter().take(3).collect::<Vec<_>>(), "document": doc_text, "threads": n_threads, "iterations": iters});
         if panicked {
@@ -377,7 +377,7 @@ mod imp {
                     })
                 })
                 .collect();
-            hs.into_iter().map(|h| h.join().is_err()).any(|x| x)
+            hs.into_iter().map(|h| h.join().is_err()).collect::<Vec<bool>>().into_iter().any(|x| x)
         });
         let case = json!({"expression": expr, "document": doc_text, "threads": n_threads, "iterations": iters});
         if panicked {
